@@ -1,7 +1,98 @@
-import GIV.Model.Txtar
+/-
+  C14 — txtar quoting: NeedsQuote is exact and Quote/Unquote are inverse.
+
+  Property theorems about the model `GIV.Model.Txtar`; proofs in `GIV/Lemmas/TxtarQuote.lean`.
+  `needsQuote_exact` is proved by unfolding `Gen.Txtar.needsQuoteTestsName` (NeedsQuote returns
+  `name != ""`, not `after != nil`), so it breaks if that fact flips.
+-/
+import GIV.Lemmas.TxtarQuote
+
 namespace GIV.C14
 open GIV GIV.Txtar
 
+/-! ### vocabulary of the statement -/
+
+/-- The body contains a file marker line: some line of it (terminated or not) is recognised by
+`isMarker` with a non-empty name. -/
+def HasMarkerLine (d : Bytes) : Prop :=
+  ∃ l ∈ splitLines d, ∃ n, markerName l = some n ∧ n ≠ []
+
+instance (d : Bytes) : Decidable (HasMarkerLine d) :=
+  inferInstanceAs (Decidable (Txtar.HasMarkerLine d))
+
+/-- File name as `Format` expects it: non-empty, trimmed, no newline. -/
+def NameOK (n : Bytes) : Prop := n ≠ [] ∧ trimSpace n = n ∧ NL ∉ n
+
+instance (n : Bytes) : Decidable (NameOK n) := inferInstanceAs (Decidable (Txtar.NameOK n))
+
+/-- only for evaluating the concrete `example`s below -/
+instance : DecidableEq (Except QErr Bytes)
+  | .ok a, .ok b => decidable_of_iff (a = b) (by simp)
+  | .error a, .error b => decidable_of_iff (a = b) (by simp)
+  | .ok _, .error _ => isFalse (by simp)
+  | .error _, .ok _ => isFalse (by simp)
+
+/-! ### NeedsQuote -/
+
+/-- `NeedsQuote d` is true exactly when `d` contains a marker line, whether or not the body (or
+that line) ends in a newline. -/
+theorem needsQuote_exact : ∀ d, needsQuote d = some (decide (HasMarkerLine d)) :=
+  needsQuote_eq
+
+example : HasMarkerLine (lit "a\n-- x --") := by decide +kernel
+example : needsQuote (lit "a\n-- x --") = some true := by decide +kernel
+example : needsQuote (lit "-- x --\r") = some true := by decide +kernel
+example : needsQuote (lit "a\n --x --\n") = some false := by decide +kernel
+
+/-- Operational reading: `NeedsQuote d` is false exactly when storing `d` as a file body parses
+back to exactly that one file, with `fixNL d` as its data. -/
+theorem needsQuote_false_iff_body_safe : ∀ d, needsQuote d = some false ↔
+    parse (format ⟨[], [⟨lit "f", d⟩]⟩) = some ⟨[], [⟨lit "f", fixNL d⟩]⟩ := by
+  intro d
+  rw [needsQuote_false_iff, parse_format_single (by decide +kernel)]
+
+/-- The same for any admissible file name. -/
+theorem needsQuote_false_iff_body_safe_name : ∀ d n, NameOK n → (needsQuote d = some false ↔
+    parse (format ⟨[], [⟨n, d⟩]⟩) = some ⟨[], [⟨n, fixNL d⟩]⟩) := by
+  intro d n hn
+  rw [needsQuote_false_iff, parse_format_single hn]
+
+example : parse (format ⟨[], [⟨lit "f", lit "a\n-- x --"⟩]⟩)
+    = some ⟨[], [⟨lit "f", lit "a\n"⟩, ⟨lit "x", []⟩]⟩ := by decide +kernel
+
+/-! ### Quote / Unquote -/
+
 theorem quote_nil : quote [] = .ok [] := by rfl
+
+/-- `Unquote (Quote d) = d` whenever `Quote` accepts `d`. -/
+theorem unquote_quote : ∀ d q, quote d = .ok q → unquote q = .ok d :=
+  fun _ _ h => Txtar.unquote_quote h
+
+example : quote (lit "a\n-- x --\n\n>b\n") = .ok (lit ">a\n>-- x --\n>\n>>b\n") := by decide +kernel
+
+/-- The quoted form never needs quoting. -/
+theorem quote_not_needsQuote : ∀ d q, quote d = .ok q → needsQuote q = some false :=
+  fun _ _ h => quote_needsQuote h
+
+/-- The quoted form survives Format/Parse unchanged (as the body of a file with an admissible
+name, after any admissible comment). -/
+theorem quote_survives : ∀ d q n, quote d = .ok q → NameOK n →
+    parse (format ⟨[], [⟨n, q⟩]⟩) = some ⟨[], [⟨n, q⟩]⟩ :=
+  fun _ _ _ h hn => quote_survives_gen h bodyOK_nil hn
+
+theorem quote_survives_comment : ∀ d q n c, quote d = .ok q → NameOK n → BodyOK c →
+    parse (format ⟨c, [⟨n, q⟩]⟩) = some ⟨c, [⟨n, q⟩]⟩ :=
+  fun _ _ _ _ h hn hc => quote_survives_gen h hc hn
+
+example : NameOK (lit "a b") := by decide +kernel
+
+/-- `Quote` refuses (with an error, never a wrong result: see `unquote_quote`) exactly the data
+it cannot represent: data without final newline, or not valid UTF-8. -/
+theorem quote_refuses : ∀ d, (∃ e, quote d = .error e) ↔
+    ((d ≠ [] ∧ d.getLast? ≠ some NL) ∨ utf8Valid d = false) :=
+  quote_error_iff
+
+example : quote (lit "a") = .error .noFinalNewline := by decide +kernel
+example : quote [0xC0, 0x80, NL] = .error .notUTF8 := by decide +kernel
 
 end GIV.C14
